@@ -14,7 +14,8 @@ PROPERTY = 'C09'
 LEVEL = 'fault_enumeration'
 ENGINE = 'E3'
 TECHNIQUE = ('exhaustive single-deviation enumeration over directory contents: one junk entry (every proper prefix, every '
-             'single-byte corruption x 8/255 values of an all-sections PEL, every 1-byte file, empty file, sub-directories) at '
+             'single-byte corruption x 8/255 values of an all-sections PEL, every 1-byte file, empty file, sub-directories, entries that '
+             'cannot be opened or read: dangling/looping symbolic links and injected open()/read() failures) at '
              'each of 3 name positions in a 3-PEL directory, for every directory mode, through the real main(); differential '
              'oracle good vs good+junk with the junk\'s own decodability decided by the same mode run on the junk alone')
 LEVEL_TEXT = ('For every junk entry and every mode the tool is run on {junk}, {good} and {good + junk}: exit status must be 0, '
@@ -22,10 +23,11 @@ LEVEL_TEXT = ('For every junk entry and every mode the tool is run on {junk}, {g
               'for the good PELs must be exactly what is reported without the junk, in the same order (byte-identical stdout '
               'when the junk alone reports nothing; otherwise equal after removing what the junk alone reports). -j compares '
               'the written files. Thorough adds all 255 corruption values and pairs of junk files.')
-LEVEL_NOTE = ('stderr text, unreadable (permission) files and broken symlinks are outside the statement; for -j only the '
-              'written files are compared, and its stdout (never a JSON document) must be the same with and without undecodable junk')
+LEVEL_NOTE = ('stderr text is not constrained; permission failures are injected through the tool\'s open() (the checks run as '
+              'root); for -j the written files are compared, and its stdout (never a JSON document) must be the same with and '
+              'without undecodable junk')
 RULE = ('junk = empty | prefix n (all n) | byte off:=v (all off, v in 8 values; thorough 255) | 1-byte file (all 256) | '
-        'sub-directory (3 shapes); position in {a, c, g}; modes -l -a -n --plid(2) --src --src-exclude -j, -x variants of '
+        'sub-directory (3 shapes) | dangling link | link loop | open fails EACCES/EIO/ENOENT/EMFILE | read fails EIO/EISDIR; position in {a, c, g}; modes -l -a -n --plid(2) --src --src-exclude -j, -x variants of '
         '-l/-a, with -E and (prefixes) without. Non-trivial: junk differs from a well-formed PEL; distinct by (junk, '
         'position, mode).')
 ASSUMPTIONS = ['a junk file that the mode can decode legitimately appears in the output']
